@@ -220,6 +220,8 @@ def parse_rvalue(s):
             except ValueError:
                 pass
         return ('use', parse_operand(s))
+    if s.startswith('&raw const (fake) '):
+        return ('ref', 'raw', parse_place(s[18:]))
     if s.startswith('&raw const '):
         return ('ref', 'raw', parse_place(s[11:]))
     if s.startswith('&raw mut '):
